@@ -134,32 +134,39 @@ ReqStart(r, id) ==                                                     \* [F] re
   /\ rq[r].sent \in {"body", "full"}
   /\ rq[r].stage = "none"
   /\ cst[rq[r].conn].server = "accepted"
-  /\ ~srv.gracefulDone                          \* all connections have finished by then
+  \* Once graceful shutdown has finished every connection has ended, so only
+  \* a request of a departed client can still be started (HTTP/2: the
+  \* per-stream task may be polled for the first time after its connection
+  \* has ended); and none once the waitgroup has drained, because every
+  \* request future holds the server state and with it the primary worker.
+  /\ srv.gracefulDone => ClientGone(r)
+  /\ ~srv.wgDone
   /\ id \in Ids \ usedIds                       \* C13: a fresh id per request
   /\ rq' = [rq EXCEPT ![r].stage = "started", ![r].id = id]
   /\ usedIds' = usedIds \cup {id}
   /\ UNCHANGED <<cst, srv, wg>>
 
 \* A request future whose connection has already ended (possible only for a
-\* departed client, see GracefulDone) makes no further progress: it can only
-\* be dropped.
-Progressing == ~srv.gracefulDone
-
+\* departed client, see GracefulDone) may still make progress until it is
+\* dropped: with HTTP/2 it is a task of its own, and it is only cancelled at
+\* a point where it is pending.  (Observed: route_ok .. resp_ready after
+\* graceful_done for a stream whose client had reset it and disconnected.)
 VersionOk(r) ==                                                        \* [F] version_ok
-  /\ Progressing
   /\ rq[r].stage = "started"
   /\ rq' = [rq EXCEPT ![r].stage = "versioned"]
   /\ UNCHANGED <<cst, srv, wg, usedIds>>
 
 RouteOk(r) ==                                                          \* [F] route_ok
-  /\ Progressing
   /\ rq[r].stage = "versioned"
   /\ rq' = [rq EXCEPT ![r].stage = "routed"]
   /\ UNCHANGED <<cst, srv, wg, usedIds>>
 
 Spawn(r) ==                                                            \* [F] spawn
   /\ Mode = "detached"
-  /\ Progressing
+  \* No detached task is spawned once the waitgroup has drained: the request
+  \* future that spawns it holds the server state (Arc<DropshotState>) and
+  \* with it the primary waitgroup worker, so wait() cannot have returned.
+  /\ ~srv.wgDone
   /\ rq[r].stage = "routed"
   /\ rq[r].task = "none"
   /\ rq' = [rq EXCEPT ![r].task = "spawned"]
